@@ -775,3 +775,24 @@ def module_constants(mod, env=None, funcs=None):
             except (NotFinite, Raised, TypeError, ValueError, KeyError, AttributeError, IndexError):
                 env.pop(st.targets[0].id, None)
     return env
+
+
+class FuncRef(str):
+    """the name of a module-level function or class used as a value in a table (a dispatch table entry)"""
+
+
+def module_table(mod, name, env=None, funcs=None):
+    """the value of the module-level constant `name`, evaluated from the module's constants; names of the module's own functions and
+    classes evaluate to FuncRef(name), dotted references to imported names evaluate to FuncRef(dotted text). None when not evaluable."""
+    base = dict(env or {})
+    for st in mod.tree.body:
+        if isinstance(st, (ast.FunctionDef, ast.ClassDef)):
+            base.setdefault(st.name, FuncRef(st.name))
+    # dotted references used as values anywhere at module level (e.g. _np.mean, _arip.disaggregate_arip)
+    for st in mod.tree.body:
+        if isinstance(st, ast.Assign):
+            for n in ast.walk(st.value):
+                if isinstance(n, ast.Attribute) and dotted(n) and dotted(n) not in base and not isinstance(getattr(n, "ctx", None), ast.Store):
+                    base.setdefault(dotted(n), FuncRef(dotted(n)))
+    consts = module_constants(mod, base, funcs)
+    return consts.get(name)
